@@ -13,6 +13,7 @@
 #include <cstdlib>
 #include <cstring>
 #include <memory>
+#include <iterator>
 #include <type_traits>
 
 namespace vf {
@@ -481,7 +482,19 @@ struct ScriptLexer
         S.ev += "L";
         if (start == end) { S.ev += "@end->fail;"; return ctpg::recognized_term{}; }
         long off = iter_offset(start);
-        long rem = 0; { It i = start; while (!(i == end)) { ++i; ++rem; } }
+        // distance to the end in constant time (walking it made a parse of n tokens cost n*n/2 steps: a 10^6-token input did not finish)
+        long rem = 0;
+        if constexpr (std::is_same_v<It, checked_buffer::iterator>)
+        {
+            rem = end.pos - start.pos;
+            if (rem < 0) { ++start.b->oob_form; if (start.b->first_bad.empty()) start.b->first_bad = "lexer called with start " + std::to_string(start.pos) + " beyond end " + std::to_string(end.pos); S.ev += "@beyond-end->fail;"; return ctpg::recognized_term{}; }
+        }
+        else if constexpr (std::is_base_of_v<std::random_access_iterator_tag, typename std::iterator_traits<It>::iterator_category>)
+        {
+            rem = long(end - start);
+            if (rem < 0) { std::fprintf(stderr, "MONITOR: custom lexer called with start beyond end\n"); std::abort(); }
+        }
+        else { It i = start; while (!(i == end)) { ++i; ++rem; } }
         unsigned char c = (unsigned char)*start;
         put(off); S.ev += ":"; put(rem); S.ev += ":"; put(sp.line); S.ev += ":"; put(sp.column); S.ev += "->";
         int t = cur_lexspec ? cur_lexspec->term[c] : -1;
